@@ -562,18 +562,37 @@ def _d7(chk, fb):
             for c, cont, idxs, kind in ([] if bad else allsites):
                 if kind != ("vector" if isvec else "matrix") or len(idxs) != (1 if isvec else 2) or render(cont) != O["name"]:
                     continue
+                # is the entry (re)initialised here?  Everything that is not provably a read counts as a write: the covered set is
+                # over-estimated, so that an entry reported as missing really is written nowhere
                 par = f.parent.get(c["id"])
+                loaded = False
                 while par is not None and par["k"] in ("ImplicitCastExpr", "ParenExpr", "MaterializeTemporaryExpr"):
+                    if par["k"] == "ImplicitCastExpr" and par.get("cast") in ("LValueToRValue", "NoOp"):
+                        loaded = True
                     par = f.parent.get(par["id"])
-                written = par is not None and par["k"] == "BinaryOperator" and par.get("op") == "=" and strip(kids(par)[0]) is strip(c)
-                if not written and isvec and par is not None and is_call(par):
-                    if par["callee"]["name"] == "operator=" and "obj" in par and strip(f.obj(par)) is strip(c):
-                        written = True
+                if loaded or par is None:
+                    continue
+                written = True
+                if par["k"] == "BinaryOperator" and par.get("op") == "=":
+                    written = strip(kids(par)[0]) is strip(c)
+                elif par["k"] == "CompoundAssignOperator" or (par["k"] == "BinaryOperator"):
+                    written = False         # read-modify-write / operand of an expression
+                elif is_call(par):
+                    if "obj" in par and strip(f.obj(par)) is strip(c):
+                        written = par["callee"]["name"] == "operator=" or not par["callee"].get("const")
+                        if par["callee"]["name"] in ("operator+=", "operator-=", "operator*=", "operator/="):
+                            written = False
                     else:
                         pt = par["callee"].get("ptypes") or []
+                        written = False
                         for k_, a_ in enumerate(f.args(par)):
-                            if strip(a_) is strip(c) and k_ < len(pt) and pt[k_].endswith("&") and not pt[k_].startswith("const "):
-                                written = True
+                            if strip(a_) is strip(c):
+                                written = not (k_ < len(pt) and (pt[k_].startswith("const ") or not pt[k_].endswith("&")))
+                elif par["k"] == "DeclStmt":
+                    written = False
+                    for d_ in par["decls"]:
+                        if d_.get("init") is not None and f.contains(d_["init"], c):
+                            written = (d_.get("ty") or "").endswith("&") and not d_["ty"].startswith("const ")
                 if not written:
                     continue
                 bs = [fun.index_bounds(ix, c) for ix in idxs]
